@@ -8,3 +8,7 @@ import AikenVerif.Props.C20
 import AikenVerif.Props.C11
 import AikenVerif.Props.C12
 import AikenVerif.Props.C18
+import AikenVerif.Props.C01
+import AikenVerif.Props.C02
+import AikenVerif.Props.C06
+import AikenVerif.Props.C14
